@@ -1,6 +1,10 @@
 package sql
 
 import (
+	"go/types"
+
+	an "github.com/benoitkugler/gomacro/analysis"
+	asql "github.com/benoitkugler/gomacro/analysis/sql"
 	gen "github.com/benoitkugler/gomacro/generator"
 )
 
@@ -14,4 +18,80 @@ func HC18_sqlSweep() {
 	})
 	vfObserve("outcome", msg)
 	vfAssert(!rt, "C18/sql-validators-no-runtime-error")
+}
+
+// HC18_sqlTableSweep: a table struct whose column has any skeleton type: table analysis, SQL type
+// naming and column definition either complete or stop with an explicit diagnostic.
+func HC18_sqlTableSweep() {
+	w := newSkelWorld()
+	ty := w.anyType("t", vfParam("C18.depth", 2))
+	named := skelNamed(w.pkg, "Tbl", types.NewStruct(nil, nil))
+	st := skelStruct(w.pkg, named, []skelField{{name: "Id", typ: &an.Basic{B: types.Typ[types.Int64]}}, {name: "Col", typ: ty}})
+	rt, msg := skelDiagnostic(func() {
+		ta := asql.NewTable(st)
+		generateTable(ta)
+		for _, c := range ta.Columns {
+			_ = c.SQLType.Name()
+		}
+		ta.ForeignKeys()
+	})
+	vfObserve("outcome", msg)
+	vfAssert(!rt, "C18/sql-table-no-runtime-error")
+}
+
+// c18TimeNamed: a named type printing like time.Time does (what analysis.NewTime looks for).
+func c18TimeNamed(pkgPath, pkgName, typeName string) *types.Named {
+	timePkg := types.NewPackage("time", "time")
+	loc := types.NewNamed(types.NewTypeName(0, timePkg, "Location", nil), types.NewStruct(nil, nil), nil)
+	st := types.NewStruct([]*types.Var{
+		types.NewField(0, timePkg, "wall", types.Typ[types.Uint64], false),
+		types.NewField(0, timePkg, "ext", types.Typ[types.Int64], false),
+		types.NewField(0, timePkg, "loc", types.NewPointer(loc), false),
+	}, nil)
+	return types.NewNamed(types.NewTypeName(0, types.NewPackage(pkgPath, pkgName), typeName, nil), st, nil)
+}
+
+// HC18_nullableWrappers: sql.NullXXX look-alikes (struct {Valid bool; <data>}) over every kind of
+// data field, in both field orders.
+func HC18_nullableWrappers() {
+	pkg := skelPkg()
+	var data types.Type
+	var dataAn an.Type
+	switch vfChoice("data", 6) {
+	case 0:
+		data, dataAn = types.Typ[types.Int64], &an.Basic{B: types.Typ[types.Int64]}
+	case 1:
+		data, dataAn = types.Typ[types.String], an.String
+	case 2:
+		data, dataAn = c18TimeNamed("time", "time", "Time"), an.VfTime(false)
+	case 3:
+		n := c18TimeNamed(pkg.Path(), pkg.Name(), "MyDate")
+		data, dataAn = n, an.VfNewNamed(n, an.VfTime(true))
+	case 4:
+		n := skelNamed(pkg, "IdOther", types.Typ[types.Int64])
+		data, dataAn = n, an.VfNewNamed(n, &an.Basic{B: types.Typ[types.Int64]})
+	default:
+		data, dataAn = types.NewSlice(types.Typ[types.Int]), &an.Array{Elem: an.Int, Len: -1}
+	}
+	valid := types.NewField(0, pkg, "Valid", types.Typ[types.Bool], false)
+	df := types.NewField(0, pkg, "Data", data, false)
+	vars := []*types.Var{valid, df}
+	ans := []an.Type{an.Bool, dataAn}
+	if vfChoice("order", 2) == 1 {
+		vars, ans = []*types.Var{df, valid}, []an.Type{dataAn, an.Bool}
+	}
+	wn := skelNamed(pkg, "NullData", types.NewStruct(vars, nil))
+	wrapper := &an.Struct{Name: wn}
+	for i, v := range vars {
+		wrapper.Fields = append(wrapper.Fields, an.StructField{Type: ans[i], Field: v})
+	}
+	named := skelNamed(pkg, "Tbl", types.NewStruct(nil, nil))
+	st := skelStruct(pkg, named, []skelField{{name: "Id", typ: &an.Basic{B: types.Typ[types.Int64]}}, {name: "Col", typ: wrapper}})
+	rt, msg := skelDiagnostic(func() {
+		ta := asql.NewTable(st)
+		generateTable(ta)
+		ta.ForeignKeys()
+	})
+	vfObserve("outcome", msg)
+	vfAssert(!rt, "C18/nullable-wrapper-no-runtime-error")
 }
